@@ -733,6 +733,29 @@ pub fn replay_one<P: Prop>(file: &Path) -> i32 {
 }
 
 // ---------------------------------------------------------------------------------------
+// background threads of the code under test
+
+pub fn thread_count() -> usize {
+    std::fs::read_dir("/proc/self/task").map(|d| d.count()).unwrap_or(0)
+}
+
+/// Wait (bounded) until the process has at most `baseline` threads again, so that threads of one
+/// run (pipe workers, buffer threads) cannot act - or panic - during a later case. Returns false
+/// if threads are still alive after `timeout`.
+pub fn wait_threads(baseline: usize, timeout: Duration) -> bool {
+    let t0 = Instant::now();
+    loop {
+        if thread_count() <= baseline {
+            return true;
+        }
+        if t0.elapsed() >= timeout {
+            return false;
+        }
+        std::thread::sleep(Duration::from_micros(200));
+    }
+}
+
+// ---------------------------------------------------------------------------------------
 // helpers for strategies
 
 /// Map a generated u16 monotonically onto 0..n (n > 0); shrinks towards 0.
